@@ -51,6 +51,10 @@ pub broadcast axiom fn axiom_updated_slice_key<V>(m1: Map<Vec<u8>, V>, m2: Map<V
 pub broadcast axiom fn axiom_updated_vec_key<V>(m1: Map<Vec<u8>, V>, m2: Map<Vec<u8>, V>, q: &Vec<u8>, v: V)
     ensures #[trigger] borrowed_key_updated::<Vec<u8>, V, Vec<u8>>(m1, m2, q, v) == (m2 == m1.insert(*q, v));
 
+/// looking a map up by a reference to its own key type addresses that key (Borrow<K> for K is the identity)
+pub broadcast axiom fn axiom_updated_same_key<K, V>(m1: Map<K, V>, m2: Map<K, V>, q: &K, v: V)
+    ensures #[trigger] borrowed_key_updated::<K, V, K>(m1, m2, q, v) == (m2 == m1.insert(*q, v));
+
 pub broadcast axiom fn axiom_set_contains_slice_key(s: Set<Vec<u8>>, q: &[u8])
     ensures #[trigger] vstd::std_specs::hash::set_contains_borrowed_key::<Vec<u8>, [u8]>(s, q) == s.contains(key_of(q@));
 pub broadcast axiom fn axiom_sets_differ_slice_key(s1: Set<Vec<u8>>, s2: Set<Vec<u8>>, q: &[u8])
@@ -59,7 +63,7 @@ pub broadcast axiom fn axiom_sets_differ_slice_key(s1: Set<Vec<u8>>, s2: Set<Vec
 pub broadcast group group_byte_keys {
     axiom_set_contains_slice_key, axiom_sets_differ_slice_key,
     axiom_key_of_view, axiom_view_key_of, axiom_vecu8_ext, axiom_slice_len_bound, axiom_vec_len_bound, axiom_vecvec_len_bound, axiom_vecu8_key_model,
-    axiom_contains_slice_key, axiom_maps_slice_key, axiom_removed_slice_key, axiom_updated_slice_key, axiom_updated_vec_key,
+    axiom_contains_slice_key, axiom_maps_slice_key, axiom_removed_slice_key, axiom_updated_slice_key, axiom_updated_vec_key, axiom_updated_same_key,
 }
 }
 }
